@@ -116,11 +116,7 @@ theorem next_leaf {hole : Option Nat} {t : Tree K V} (hok : TreeOk hole t) {cur 
     simp at h2
   have hocc := hok.occ _ hqf
   refine ⟨qs, hlq, hq0', ?_⟩
-  have hm : 1 ≤ minOf t.order t.rootId hole qi qs.height := by
-    unfold minOf
-    rw [if_neg hne]
-    have := hok.order4
-    split <;> omega
+  have hm : 1 ≤ minOf t.order t.rootId hole qi qs.height := hok.min_pos hne _
   exact Nat.le_trans hm hocc.2.1
 
 /-- the cursor hop -/
